@@ -101,9 +101,18 @@ func (m *FilesMap) Dump() []byte {
 func splitManifest(manifest []byte) ([][]byte, bool) {
 	var malformed bool
 	sections := make([][]byte, 0)
+	// Only search for a separator when the previous search found one, and only
+	// search for LF LF if there is no CR LF CR LF left. Otherwise each section
+	// would rescan the whole remainder of the manifest for a separator that
+	// isn't there, which takes quadratic time on a manifest with many sections.
+	i1, i2 := 0, -1
 	for len(manifest) != 0 {
-		i1 := bytes.Index(manifest, []byte("\r\n\r\n"))
-		i2 := bytes.Index(manifest, []byte("\n\n"))
+		if i1 >= 0 {
+			i1 = bytes.Index(manifest, []byte("\r\n\r\n"))
+		}
+		if i1 < 0 {
+			i2 = bytes.Index(manifest, []byte("\n\n"))
+		}
 		var idx int
 		switch {
 		case i1 >= 0:
